@@ -574,8 +574,8 @@ LEVEL_TEXT = ('machine-checked Coq theorems (C08_*, for every cell operation, ev
               '(exact-integer instances) is compared inside Coq with add_/sub_/mul_/div_/pow_/comparisons/min_/max_/df_sum/df_mean/df_count of '
               'the current tree on thousands of generated operand tuples, and a property-level oracle recomputes every cell with Fractions')
 LEVEL_NOTE = ('trusted: Coq kernel/vm_compute; modelled not verified: pandas/numpy float arithmetic on aligned operands (compared exactly on '
-              'integer-valued data), DataFrame construction from a dict of Series; builds on the C03 alignment model. min_/max_ on DataFrames and '
-              'the no-proper-frame single-column branch are covered by the same model through the correspondence only; mixed operands and '
-              'df_sum/df_mean/df_count on DataFrames have theorems (C08_mixed_operands, C08_sum_mean_count_frames). div_(x, 0) with a scalar '
+              'integer-valued data), DataFrame construction from a dict of Series; builds on the C03 alignment model. every operator of the statement has a whole-object '
+              'theorem instance for Series and for DataFrames (C08_arith_instances, C08_operator_instances, C08_min_max_frames, C08_mixed_operands, '
+              'C08_single_column_branch, C08_sum_mean_count_frames); the Series x DataFrame tiling of min_/max_ is correspondence only. div_(x, 0) with a scalar '
               'zero divisor was repaired (fixes/C08.patch; C08_div_scalar_zero_pinned_refuted records the old behaviour)')
 TECHNIQUE = 'Coq proof (induction over association lists, generic in the cell operation) + differential correspondence in vm_compute + exact Fraction oracle'
